@@ -134,6 +134,15 @@ func (s *Server) handleConn(c *Conn) error {
 	verifConnAccepted()
 
 	s.locker.Lock()
+	select {
+	case <-s.done:
+		// Close or Shutdown ran after this connection was accepted and
+		// before it got here: they did not see it, and it must not be
+		// served as if nothing had happened.
+		s.locker.Unlock()
+		return c.Close()
+	default:
+	}
 	s.conns[c] = struct{}{}
 	s.locker.Unlock()
 
